@@ -204,6 +204,12 @@ pub fn judge(c: &Case) -> Verdict {
     // budget: the implementation may then legitimately work for ever too (e.g. collecting an
     // endless fold), which is no laziness violation
     let pulls = if m.end == "end" || m.end == "error" { (want + 1).min(K) } else { want };
+    if pulls == 0 {
+        // the definitional trace produces nothing within its budget (say, collecting an endless
+        // stream into an array): nothing can be asked of the implementation either - and merely
+        // building its iterator may already start that endless collection
+        return Verdict::Ok { cuts: 0, nontrivial: false };
+    }
     let imp = match std::panic::catch_unwind(std::panic::AssertUnwindSafe(|| run_impl(c, pulls, None))) {
         Ok(Ok(i)) => i,
         Ok(Err(e)) => return Verdict::Inconclusive(format!("does not compile: {e}")),
